@@ -2,6 +2,7 @@
 import decimal
 import enum
 import json
+import sys
 
 
 class StubError(Exception):
@@ -10,6 +11,10 @@ class StubError(Exception):
 
 class _HiddenError(Exception):
     pass
+
+
+class StubAbort(BaseException):
+    """Not an Exception: only `except BaseException` sees it."""
 
 
 class Color(enum.Enum):
@@ -83,4 +88,12 @@ def boom(kind, *a):
         raise decimal.InvalidOperation("d")
     if kind == "JSONDecodeError":
         raise json.JSONDecodeError("m", "doc", 0)
+    if kind == "SystemExit":
+        sys.exit(2)
+    if kind == "KeyboardInterrupt":
+        raise KeyboardInterrupt
+    if kind == "GeneratorExit":
+        raise GeneratorExit
+    if kind == "StubAbort":
+        raise StubAbort("a")
     raise RuntimeError(kind)
